@@ -7,6 +7,7 @@
  N38 `D[k] = A if C else B` / `x.a = A if C else B` (a statement)  ->  `if C: D[k] = A else: D[k] = B`
  N56 adjacent `if T: A else: B` + `if T: C else: D` (same isinstance test, name not re-bound) -> `if T: A; C else: B; D`
  N39 `len(X) if X else 0` -> `len(X or ())`
+ N67 a second `Node(x)` wrapper that replaces the first (`w2 = Node(x); ..; w = w2`, w only asked so far) is the first
  N65 nested generator expressions are fused;  N66 `zip` of two generators over the same collection with complementary tuple patterns
      is one generator of pairs
  N63 `X is None` right after `X.attr` was read (same block, no store, no call in between) is false
@@ -1030,6 +1031,70 @@ def _n63(fn):
             blk.append(ast.Pass())
 
 
+_PURE_NODE_METHODS = {'is_mapping', 'is_sequence', 'is_scalar', 'has_attribute', 'get_attribute', 'get_value', 'is_empty', 'seq_items',
+                      'has_attribute_type'}
+
+
+def _n67(fn):
+    """N67 a second wrapper of the same node that takes the place of the first: `w = Node(x)` .. (w only asked, never changed) ..
+    `w2 = Node(x); <work on w2>; w = w2` -> the work is done on w (Node is a stateless view: two views of one node that is looked
+    at through only one of them at a time are one view)"""
+    for holder, fld, blk in list(_blocks(fn)):
+        if not blk or not (isinstance(blk[-1], ast.Assign) and len(blk[-1].targets) == 1 and isinstance(blk[-1].targets[0], ast.Name)
+                           and isinstance(blk[-1].value, ast.Name)):
+            continue
+        w1, w2 = blk[-1].targets[0].id, blk[-1].value.id
+        defs2 = [st for st in blk if isinstance(st, ast.Assign) and len(st.targets) == 1 and isinstance(st.targets[0], ast.Name)
+                 and st.targets[0].id == w2]
+        if len(defs2) != 1 or sum(1 for n in ast.walk(fn) if isinstance(n, ast.Name) and n.id == w2 and not isinstance(n.ctx, ast.Load)) != 1:
+            continue
+        d2 = defs2[0]
+        if not (isinstance(d2.value, ast.Call) and isinstance(d2.value.func, ast.Name) and d2.value.func.id == 'Node' and len(d2.value.args) == 1
+                and isinstance(d2.value.args[0], ast.Name)):
+            continue
+        x = d2.value.args[0].id
+        stores1 = [st for st in ast.walk(fn) if isinstance(st, ast.Assign) and len(st.targets) == 1 and isinstance(st.targets[0], ast.Name)
+                   and st.targets[0].id == w1]
+        others = [st for st in stores1 if st is not blk[-1]]
+        if len(others) != 1 or ast.dump(others[0].value) != ast.dump(d2.value):
+            continue
+        if sum(1 for n in ast.walk(fn) if isinstance(n, ast.Name) and n.id == x and not isinstance(n.ctx, ast.Load)) > 1:
+            continue
+        # w1 is not used inside the block after w2 was made, and was only asked before
+        k = blk.index(d2)
+        if any(isinstance(n, ast.Name) and n.id == w1 for st in blk[k:-1] for n in ast.walk(st)):
+            continue
+        asked_only = True
+        parents = {}
+        for n in ast.walk(fn):
+            for c in ast.iter_child_nodes(n):
+                parents[id(c)] = n
+        in_block = {id(n) for st in blk for n in ast.walk(st)}
+        from .normalize import _dfs
+        dfs_order = {id(n_): i_ for i_, n_ in enumerate(_dfs(fn))}
+        order = list(ast.walk(fn))
+        for n in order:
+            if isinstance(n, ast.Name) and n.id == w1 and isinstance(n.ctx, ast.Load) and id(n) not in in_block:
+                p_ = parents.get(id(n))
+                pp = parents.get(id(p_)) if p_ is not None else None
+                before = True    # uses after the enclosing statement of the block are fine (they see the replaced wrapper)
+                if isinstance(p_, ast.Attribute) and isinstance(pp, ast.Call) and pp.func is p_ and p_.attr in _PURE_NODE_METHODS:
+                    continue
+                # any other use: allowed only if it comes after the block in program order - approximated by "not before d2"
+                if dfs_order.get(id(n), 0) < dfs_order.get(id(d2), 0):
+                    asked_only = False
+        if not asked_only:
+            continue
+        for st in blk[k + 1:-1]:
+            for n in ast.walk(st):
+                if isinstance(n, ast.Name) and n.id == w2:
+                    n.id = w1
+        del blk[-1]
+        blk.remove(d2)
+        if not blk:
+            blk.append(ast.Pass())
+
+
 def pre_normalize(tree: ast.Module) -> ast.Module:
     tree = _n39(tree)
     tree = _n47(tree)
@@ -1045,6 +1110,7 @@ def pre_normalize(tree: ast.Module) -> ast.Module:
     for fn in [n for n in ast.walk(tree) if isinstance(n, (ast.FunctionDef, ast.AsyncFunctionDef))]:
         _n64(fn)
         _n63(fn)
+        _n67(fn)
         _n60(fn)
         _n49(fn)
         _n50(fn)
